@@ -37,7 +37,7 @@ CLAIMS = {
 NOT_YET = "check not built yet (in progress; planned per DESIGN.md section 7)"
 
 def main():
-    hooks_commits = ["8795b76"]
+    hooks_commits = ["8795b76", "685947b"]
     m = {
      "version": 1,
      "setup_cmd": "bin/vcheck setup",
